@@ -576,6 +576,15 @@ def run(ctx):
             pool[idx] = pool[n - j - 1]
         return out
 
+    def ref_swr(n, U):
+        out = np.empty(U.shape, dtype=np.int64)
+        if U.ndim == 1:
+            out[:] = ref_swr_row(n, U)
+        else:
+            for i in range(U.shape[0]):
+                out[i, :] = ref_swr_row(n, U[i])
+        return out
+
     def ref_rsm(ref, m, n, k):
         kk = n if k is None else k
         pv = np.ones((m, 1)) if kk == 1 else ref_probvec(ref.random(size=(m, kk - 1)))
@@ -633,8 +642,7 @@ def run(ctx):
                 size = (k,) if nt is None else (nt, k)
                 degenerate_case("sample_without_replacement", {"n": n, "k": k, "num_trials": nt},
                                 lambda rs, n=n, k=k, nt=nt: sample_without_replacement(n, k, num_trials=nt, random_state=rs),
-                                lambda ref, n=n, size=size: (lambda U: np.array([ref_swr_row(n, r) for r in U.reshape(-1, size[-1])],
-                                                                                dtype=np.int64).reshape(size))(ref.random(size=size)),
+                                lambda ref, n=n, size=size: ref_swr(n, ref.random(size=size)),
                                 dtype=np.dtype(np.int64))
     for n, k, nt in [(0, 0, None), (-2, 1, None), (3, 4, None), (3, 4, 0), (0, 0, 2)]:
         degenerate_case("sample_without_replacement", {"n": n, "k": k, "num_trials": nt},
